@@ -276,6 +276,8 @@ pub fn run_one(seed: u64, prop: &PropCfg, run: u64, known: &[KnownFinding]) -> R
         Mode::RoyaltyStack | Mode::AssetStack => prop.max_steps + 120,
         _ => prop.max_steps,
     };
+    // thorough tier: every fourth run is three times as long (deeper histories, more re-use of records)
+    let max_steps = if probes::THOROUGH.load(Ordering::Relaxed) && run % 4 == 3 { max_steps * 3 } else { max_steps };
     let mut pending_probe = false;
     while exec.steps < max_steps {
         let op = if pending_probe {
